@@ -130,9 +130,31 @@ contract('saml2_tophat.config:Config.endpoint', types={'service': 'Str', 'bindin
                     'modifies': ['list(spec)']}},
          clauses_from={'C10': ['C10-own-endpoints-of-that-service-and-binding'], 'C05': ['C10-own-endpoints-of-that-service-and-binding']},
          note='the configured table is assumed to have the documented shape (pairs); a malformed entry (ValueError branch) is excluded by the precondition')
+# Entity.unravel picks the SOAP reader with getattr(soap, 'parse_soap_enveloped_saml_%s' % msgtype): one specialised variant per
+# message type named by a constant at a call site; calls with a computed message type (Entity._parse_response /_parse_request pass
+# response_cls.msgtype) are checked against the dispatch stub, which promises nothing about the decoded text.
+_B_REDIRECT, _B_POST, _B_SOAP, _B_URI, _B_ART = ("'urn:oasis:names:tc:SAML:2.0:bindings:HTTP-Redirect'", "'urn:oasis:names:tc:SAML:2.0:bindings:HTTP-POST'",
+                                                 "'urn:oasis:names:tc:SAML:2.0:bindings:SOAP'", "'urn:oasis:names:tc:SAML:2.0:bindings:URI'",
+                                                 "'urn:oasis:names:tc:SAML:2.0:bindings:HTTP-Artifact'")
+_KNOWN_B = '(binding is None or binding == %s or binding == %s or binding == %s or binding == %s or binding == %s)' % (
+    _B_REDIRECT, _B_POST, _B_SOAP, _B_URI, _B_ART)
+_TXT = 'ite(is_bytes(txt), str_of(as_type(txt, "Bytes")), str_of(as_type(txt, "Str")))'
+_unravel_variants = {}
+for _mt in ('response', 'request'):
+    _vq = ENT + '.unravel[%s]' % _mt
+    _unravel_variants[('msgtype', _mt)] = _vq
+    contract(_vq, variant_of=ENT + '.unravel', consts={'msgtype': _mt},
+             types={'txt': 'Union(Str, Bytes)', 'binding': 'Opt(Str)'}, returns='Union(Str, Bytes, NoneT)',
+             ensures=[('C14-known-binding', _KNOWN_B),
+                      # C14: the decoder applied is the inverse of the encoder of the same binding
+                      ('C14-redirect-is-inflate-of-base64', 'implies(binding == %s, result == vbytes(inflate(unb64(%s))))' % (_B_REDIRECT, _TXT)),
+                      ('C14-post-is-base64', 'implies(binding == %s or binding == %s, result == vbytes(unb64(%s)))' % (_B_POST, _B_ART, _TXT)),
+                      ('C14-uri-is-identity', 'implies(binding is None or binding == %s, result == txt)' % _B_URI)],
+             raises={'UnknownBinding': 'not %s' % _KNOWN_B, 'UnravelError': _KNOWN_B}, modifies=[],
+             clauses_from={'C14': ['C14-known-binding', 'C14-redirect-is-inflate-of-base64', 'C14-post-is-base64', 'C14-uri-is-identity']})
 contract(ENT + '.unravel', pure=True, trusted=True, params=['txt', 'binding', 'msgtype'], defaults={'msgtype': 'response'},
-         returns='Union(Str, Bytes, NoneT)', raises={'UnknownBinding': 'True', 'UnravelError': 'True'},
-         note='ASSUMED here: transport decoding (C14 decoders)')
+         returns='Union(Str, Bytes, NoneT)', raises={'UnknownBinding': 'True', 'UnravelError': 'True'}, variants=_unravel_variants,
+         note='dispatch stub for calls with a computed message type: ASSUMED, promises nothing about the decoded text')
 
 _KW = ['outstanding_queries', 'allow_unsolicited', 'want_assertions_signed',
        'want_assertions_or_response_signed', 'want_response_signed', 'return_addrs', 'entity_id', 'attribute_converters',
@@ -276,6 +298,24 @@ for _resp, _typ in [(False, 'SAMLRequest'), (True, 'SAMLResponse')]:
              raises={'Exception': 'True'}, modifies=[],
              clauses_from={'C15': ['C15-signed-with-the-entity-s-own-key', 'C15-unsigned-when-not-asked']})
     _ab_variants[(('binding', _REDIR), ('response', _resp))] = _vq
+
+# ---- C14: Entity.apply_binding, HTTP-POST: the message and the RelayState travel as single escaped field values of the form
+_POSTB = 'urn:oasis:names:tc:SAML:2.0:bindings:HTTP-POST'
+for _resp, _typ in [(False, 'SAMLRequest'), (True, 'SAMLResponse')]:
+    _vq = ENT + '.apply_binding[post,%s]' % _typ
+    _M64 = 'unutf8(b64(utf8(str_of(msg_str))))'
+    contract(_vq, variant_of=ENT + '.apply_binding', consts={'binding': _POSTB, 'response': _resp},
+             types={'msg_str': 'Str', 'destination': 'Str', 'relay_state': 'Opt(Str)', 'sign': 'Any', 'kwargs': 'Dict(Str, Any)'},
+             returns='Dict(Str, Any)', lets={'Q': "'\\x22'"},
+             ensures=[('C14-message-is-one-escaped-value',
+                       "contains(str_of(result['data']), concat('value=' + Q, html_escape(%s), Q))" % _M64),
+                      ('C14-relay-state-is-one-escaped-value',
+                       "implies(truthy(relay_state), contains(str_of(result['data']), "
+                       "concat('name=' + Q + 'RelayState' + Q + ' value=' + Q, html_escape(str_of(relay_state)), Q)))"),
+                      ('posted-to-the-destination', "result['url'] == destination and result['method'] == 'POST'")],
+             raises={'Exception': 'True'}, modifies=[],
+             clauses_from={'C14': ['C14-message-is-one-escaped-value', 'C14-relay-state-is-one-escaped-value']})
+    _ab_variants[(('binding', _POSTB), ('response', _resp))] = _vq
 
 
 # ================================================================================================ the SP's public entry point (C02, C05)
